@@ -109,8 +109,17 @@ def check_check_regions(P, ctx):
                                 fld = util.field_name(l)
                                 if fn['name'] == 'header_init' and fld in ('alloc', 'magic'):
                                     continue
-                                if fn['name'] == 'dealloc' and l[0] == 'idx':
-                                    continue
+                                if fn['name'] == 'dealloc' and (l[0] == 'idx' or (l[0] == 'un' and l[1] == '*')):
+                                    # the poison fill: a store into the block that is being released (an address derived from the parameter,
+                                    # directly or through locals of the region); nothing can read it afterwards within the contract
+                                    derived = set()
+                                    for _ in range(3):
+                                        for lid, d in in_decl.items():
+                                            if d.get('init') is not None and any((x[0] == 'param' and x[2] == 0) or (x[0] == 'local' and x[2] in derived) for x in ir.walk(d['init'])):
+                                                derived.add(lid)
+                                    base = l[1] if l[0] == 'idx' else l[2]
+                                    if any((x[0] == 'param' and x[2] == 0) or (x[0] == 'local' and x[2] in derived) for x in ir.walk(base)):
+                                        continue
                                 bad = bad or (fn, s_['line'], 'assigns `%s`, which lives outside the check' % ir.fmt(l))
                             elif ev['t'] == 'call':
                                 nm = ev['name']
